@@ -4550,7 +4550,11 @@ class DecConvex(Convex):
             else:
                 values_out = self.affine_out
             if not isinstance(values_in, pd.Series):
-                values_in = pd.Series([values_in])
+                if isinstance(values_out, pd.Series):
+                    values_in = pd.Series([values_in] * len(values_out),
+                                          index=values_out.index)
+                else:
+                    values_in = pd.Series([values_in])
             if not isinstance(values_out, pd.Series):
                 values_out = pd.Series([values_out] * len(values_in))
 
